@@ -246,9 +246,9 @@ Section Trans.
   Lemma exec_external_rel t tgt ev : Rel (exec_external Sync p1 m t tgt ev) (exec_external Async p2 m t tgt ev).
   Proof.
     intros s1 s2 E. destruct (core_inv _ _ E) as [Ec [Eh Ex]]. unfold exec_external. rewrite Ec, Eh.
-    set (d := find_domain m (t_src t) tgt). set (xs := exit_set_h m (s_cfg s2) (s_hist s2) d tgt).
+    set (d := find_domain m (t_src t) tgt). set (xs := ext_exit_set m (s_cfg s2) (s_hist s2) d tgt).
     set (hts := if is_history m tgt then resolve_history m (s_hist s2) tgt else []).
-    set (path := if is_history m tgt then [] else path_to m tgt d).
+    set (path := if is_history m tgt then [] else ext_path m tgt d).
     match goal with |- core (fst (match ?b1 s1 with _ => _ end)) = core (fst (match ?b2 s2 with _ => _ end)) /\ _ =>
       assert (Hb : Rel b1 b2) end.
     { apply rel_bind; [apply exit_states_rel|]. apply rel_bind; [apply exec_actions_rel; discriminate|].
